@@ -38,6 +38,7 @@ type c20Item struct {
 
 type c20Query struct {
 	Grid   bool      `json:"grid,omitempty"`  // FROM g: the rows of t, two to an inner array (rows that are arrays themselves)
+	Order  string    `json:"order,omitempty"` // ORDER BY on a column the select list does not produce: rows are still evaluated in source order
 	Twice  bool      `json:"twice,omitempty"` // Exec is called a second time on the same Query
 	Items  []c20Item `json:"items"`
 	WhereK int       `json:"where_k"` // -1 none; else  a >= WhereK
@@ -292,6 +293,18 @@ func genC20(t *rapid.T) *Bundle {
 			if q.WhereK >= 0 {
 				q.SQL += fmt.Sprintf(" WHERE a >= %d", q.WhereK)
 			}
+			if !q.Grid && rapid.IntRange(0, 4).Draw(t, "order_by") == 0 {
+				cand := []string{}
+				for _, c := range []string{"id", "a"} {
+					if !usedCols[c] {
+						cand = append(cand, c)
+					}
+				}
+				if len(cand) > 0 {
+					q.Order = rapid.SampledFrom(cand).Draw(t, "order_col") + rapid.SampledFrom([]string{" DESC", ""}).Draw(t, "order_dir")
+					q.SQL += " ORDER BY " + q.Order
+				}
+			}
 		}
 		// sequential register model
 		src := table
@@ -482,6 +495,12 @@ func evalC20(b *Bundle, r *Runner) []*Violation {
 		want := exp.Rows[qi]
 		if want == nil {
 			want = []any{}
+		}
+		if exp.Queries[qi].Order != "" {
+			// the order of the output rows is ORDER BY's business (C05); the values in them are the registers'
+			if ga, ok := asArray(got); ok && multisetEqual(ga, want) {
+				got = any(want)
+			}
 		}
 		if !jsonEqual(got, want) {
 			cls := "REGISTER_READ"
